@@ -8,11 +8,12 @@
    event per message).
 
    It works on *layouts* (HttpFramingOps): the peer picks the messages of one
-   connection from a grammar (Init: a sequence of <= MaxMsgs grammar indices,
-   every message but the last one keeping the connection alive), then the
-   environment cuts each message into reads (Read(k): the next read event
-   carries the next k bytes of the current message; the next message starts
-   only after the previous one was answered: no pipelining) and, for a
+   connection from a grammar (Init: side, plan, a sequence of <= plan.maxmsgs
+   grammar indices, every message but the last one keeping the connection
+   alive), then the environment cuts each message into reads (Read(b): the
+   next read event carries the bytes [pos, b) of the current message; the next
+   message starts only after the previous one was answered: no pipelining -
+   NextMsg) and, for a
    read-until-close response, closes the connection (PeerClose).  The system
    part is shaped like the code: one pass of the parser's loop per read over
    the carried-over bytes plus the new ones (operator Exec: phase "line" ->
@@ -22,18 +23,20 @@
    also stated directly on the state (EmitAtEnd, EmitOnce, NoSpuriousError,
    DeliveredIsEmitted).
 
-   Defects = {} is the intended algorithm.  The pinned parser deviates in five
+   Defects = {} is the intended algorithm.  The pinned parser deviates in six
    places, each a generator of counterexample histories (never an oracle):
      "linecrlf"   looks for the CRLF that ends the first line only in the
                   bytes of the current read, not in the carried-over buffer:
                   a read boundary between that CR and LF makes it take a later
-                  CRLF (bad first line: 400 / parser error) or none at all
+                  CRLF (bad first line: the server answers 400, the client
+                  parser gives up silently) or none at all
      "lastchunk"  declares a chunked message complete as soon as the size line
                   "0" CRLF of the last chunk has arrived, not after the
                   trailers and the final CRLF; the bytes that follow are taken
                   for the start of the next message
-     "nobody"     (client) a 204/304 response that has header fields is never
+     "nobody"     (client) a 204 response that has header fields is never
                   complete (only an empty header block ends a 204)
+     "nobody304"  (client) a 304 response is never complete
      "untilclose" (client) a response delimited by the closing of the
                   connection is never reported (nothing listens to the close)
      "emptyhdr"   an empty header block followed by body bytes is recognised
@@ -43,20 +46,21 @@ EXTENDS HttpFramingOps, Naturals, FiniteSets, TLC
 
 CONSTANTS Sides,     \* subset of {"server", "client"}: requests / responses are parsed
           Plans,     \* set of enumeration plans (records, see below); a behaviour follows one of them
-          Defects    \* subset of {"linecrlf", "lastchunk", "nobody", "untilclose", "emptyhdr"}
+          Defects    \* subset of {"linecrlf", "lastchunk", "nobody", "nobody304", "untilclose", "emptyhdr"}
 
 (* A plan bounds what the environment does on one connection:
      [name, pool, maxmsgs, maxcuts, mode, keep]
-   pool     "Everything" | "Selected" | "Few" | "Two": the layouts the peer may send
+   pool     "Everything" | "Selected" | "Few" | "Two" | "One": the layouts the peer may send
    maxmsgs  messages on the connection
    maxcuts  reads that end before the end of their message, over the
             connection (NoBound: any number)
    mode     where such a read may end: "all" offsets | structural boundaries
-            "pm2" (+-2) | "pm1" (+-1) | "bnd" (+-0) | "bytes" (every read is one byte)
+            "pm2" (+-2) | "pm1" (+-1) | "bnd" (+-0) | "bytes" (every read is one
+            byte) | "bytesrest" (single bytes, then the rest in one read)
    keep     keep every emitted line in `out` (small plans only)               *)
 NoBound == -1
 NoDefects == {}
-AllDefects == {"linecrlf", "lastchunk", "nobody", "untilclose", "emptyhdr"}
+AllDefects == {"linecrlf", "lastchunk", "nobody", "nobody304", "untilclose", "emptyhdr"}
 
 -----------------------------------------------------------------------------
 (* the grammar.  Tags tell the harness which bytes realise the layout
@@ -138,31 +142,36 @@ FewResp(l) == \/ (l.vi = 2 /\ l.li = 1 /\ l.hi = 2 /\ l.bi \in {2, 3, 5, 8})    
               \/ (l.vi = 2 /\ l.li = 3 /\ l.hi \in {1, 2})                       \* 204 without / with header fields
               \/ (l.vi = 2 /\ l.li = 2 /\ l.hi = 4 /\ l.bi = 7)                  \* 404 continuation ch32xt
 TwoOf(l) == l.vi = 2 /\ l.li = 1 /\ l.hi = 2 /\ l.bi \in {3, 6}                 \* cl5 / ch3t
+OneOf(l) == l.vi = 2 /\ l.li = 1 /\ l.hi = 2 /\ l.bi = 6                        \* ch3t
 InPool(name, s, l) ==
   CASE name = "Everything" -> TRUE
     [] name = "Selected" -> IF s = "server" THEN SelReq(l) ELSE SelResp(l)
     [] name = "Few" -> IF s = "server" THEN FewReq(l) ELSE FewResp(l)
     [] name = "Two" -> TwoOf(l)
-PoolNames == {"Everything", "Selected", "Few", "Two"}
+    [] name = "One" -> OneOf(l)
+PoolNames == {"Everything", "Selected", "Few", "Two", "One"}
 PoolTab == [n \in PoolNames |-> [s \in AllSides |-> {i \in 1..Len(GG[s]) : InPool(n, s, GG[s][i])}]]
 
 Plan(name, pool, maxmsgs, maxcuts, mode, keep) ==
   [name |-> name, pool |-> pool, maxmsgs |-> maxmsgs, maxcuts |-> maxcuts, mode |-> mode, keep |-> keep]
 (* exhaustive checking of the intended algorithm (with VIEW) *)
-PlansMC == {Plan("bnd", "Selected", 1, NoBound, "bnd", FALSE), Plan("all", "Two", 1, NoBound, "all", FALSE),
+PlansMC == {Plan("bnd", "Selected", 1, NoBound, "bnd", FALSE), Plan("all", "One", 1, NoBound, "all", FALSE),
             Plan("seq", "Two", 2, NoBound, "bnd", FALSE)}
-PlansMCThorough == {Plan("all", "Selected", 1, NoBound, "all", FALSE),
+PlansMCThorough == {Plan("all", "Few", 1, NoBound, "all", FALSE),
+                    Plan("pm2", "Selected", 1, NoBound, "pm2", FALSE),
                     Plan("grammar", "Everything", 1, NoBound, "bnd", FALSE),
                     Plan("seq", "Few", 3, NoBound, "bnd", FALSE)}
 PlansPinned == {Plan("all", "Selected", 1, NoBound, "all", FALSE)}
 (* histories replayed on the real code (no VIEW: every state is a history) *)
 PlansHist == {Plan("single", "Selected", 1, 1, "all", TRUE),            \* every single cut offset
               Plan("bytes", "Selected", 1, NoBound, "bytes", FALSE),    \* byte-at-a-time (every prefix of it, then the rest)
-              Plan("pair", "Few", 1, 2, "pm1", FALSE),                  \* every pair of cuts next to a boundary
+              Plan("pair", "Few", 1, 2, "bnd", FALSE),                  \* every pair of cuts at structural boundaries
+              Plan("pair1", "Two", 1, 2, "pm1", FALSE),                 \* ... and next to them
               Plan("edge", "Two", 1, 3, "bnd", FALSE),                  \* every (prev, pos) -> (pos, pos') edge over the boundaries
               Plan("seq", "Two", 2, 2, "bnd", FALSE)}                   \* keep-alive sequences
 PlansHistThorough == {Plan("single", "Selected", 1, 1, "all", TRUE),
                       Plan("bytes", "Selected", 1, NoBound, "bytes", FALSE),
+                      Plan("bytesrest", "Few", 1, NoBound, "bytesrest", FALSE),   \* j single bytes, then the rest in one read
                       Plan("pair", "Selected", 1, 2, "pm2", FALSE),
                       Plan("edge", "Selected", 1, 3, "bnd", FALSE),
                       Plan("seq", "Few", 3, 1, "bnd", FALSE),
@@ -271,7 +280,8 @@ Exec(i, p, a, b) ==
     [] p = "crash" -> R("stuck", FALSE, 2000)                    \* TypeError on the first body bytes
     [] p = "body" ->
          IF side = "client" /\ NoBodyStatus(l)
-         THEN IF "nobody" \in Defects /\ ~(l.status = 204 /\ l.hdrs = <<>>)
+         THEN IF \/ ("nobody" \in Defects /\ l.status = 204 /\ l.hdrs # <<>>)
+                 \/ ("nobody304" \in Defects /\ l.status = 304)
               THEN R("stuck", FALSE, 0)
               ELSE R("done", TRUE, 0)
          ELSE IF l.body = "none" THEN R("done", TRUE, 0)
@@ -291,6 +301,7 @@ Read(b) ==
   /\ ~closed /\ b > pos
   /\ (b = Tot) \/ (plan.maxcuts = NoBound \/ ncuts < plan.maxcuts)
   /\ (plan.mode = "bytes") => (b = pos + 1)
+  /\ (plan.mode = "bytesrest") => (b = pos + 1 \/ b = Tot)
   /\ LET r == IF dead THEN R(ph, FALSE, 0) ELSE Exec(I, ph, pos, b)
          early == r.emit /\ b < Tot
          em == emitted[m] + (IF r.emit THEN 1 ELSE 0)
